@@ -386,6 +386,12 @@ func TypeIdentifierName(name string) string {
 	return name + "_"
 }
 
+// The name of the nested class that represents one case of a union: the PascalCased tag,
+// escaped like a type name when it is a Python keyword (a tag "none" would otherwise become "None").
+func UnionCaseClassName(tag string) string {
+	return TypeIdentifierName(formatting.ToPascalCase(tag))
+}
+
 func UnionClassName(gt *dsl.GeneralizedType) (className string, typeParameters string) {
 	if !gt.Cases.IsUnion() {
 		panic("Not a union")
